@@ -95,7 +95,7 @@ def run(ctx):
                  ("C12-R5", "read-only API never reaches a flagging accessor")]:
         ctx.rule(r, t)
     for cfg in configs(ctx.tier):
-        facts = ctx.facts(cfg)
+        facts = ctx.xfacts(cfg)
         run_config(ctx, facts)
 
 
